@@ -6,7 +6,7 @@ from .. import core, gen
 from .c03 import _bc_arg, _rand_elem
 
 ID = 'C13'
-FOUNDATIONS = ['harness.foundation.cscalar']   # ties of the C++ helper functions the model rests on (generated from their text)
+FOUNDATIONS = ['harness.foundation.cscalar', 'harness.foundation.pybody']   # ties of the C++ helper functions the model rests on (generated from their text)
 LEVEL = 'proof'
 RULE = ('corpus; structured random (array, label-map) pairs of 1-3 D: labeled_sum/max/min over 9 integer dtypes '
         '(boundary-dense values, both signs) and float32/float64 (dyadic values k/8 of both signs, all-negative regions), '
